@@ -477,6 +477,25 @@ Definition bind_task (c : cache) (jid tid nid : positive) (bind_ok : bool) : cac
   | _, _ => (c, RNoTask)
   end.
 
+(* A BATCH of bind contexts (BATCH_BIND_NUM > 1): AddBindTask for every context, then BindTask on
+   the batch: executePreBinds walks the whole batch (a context whose pre-binder fails is resynced
+   and skipped, the walk goes on), then Bind sends the remaining ones and resyncs those the binder
+   refuses.  [f] is the API outcome of a context: 1 bound; 2, 3 a pre-binder fails; 0, 4 the
+   binder fails.  The resync keys of pre-bind failures are queued before those of bind failures. *)
+Definition bind_batch (c : cache) (l : list (positive * positive * positive * Z)) : cache * list opres :=
+  let '(c1, rs) :=
+    fold_left (fun (acc : cache * list opres) x =>
+                 let '(j, t, n, _) := x in
+                 let '(c', r) := bind_task (fst acc) j t n true in (c', snd acc ++ [r]))
+              l (c, []) in
+  let accepted := List.filter (fun xr : (positive * positive * positive * Z) * opres =>
+                                 match snd xr with RDone => true | _ => false end) (zip l rs) in
+  let key (xr : (positive * positive * positive * Z) * opres) := let '(j, t, _, _) := fst xr in (j, t) in
+  let fault (xr : (positive * positive * positive * Z) * opres) := let '(_, _, _, f) := fst xr in f in
+  let pre := List.filter (fun xr => (fault xr =? 2) || (fault xr =? 3)) accepted in
+  let bnd := List.filter (fun xr => (fault xr =? 0) || (fault xr =? 4)) accepted in
+  (with_errq c1 (fold_left (fun q xr => enq q (key xr)) (pre ++ bnd) (c_errq c1)), rs).
+
 (* Evict *)
 Definition evict_task (c : cache) (jid tid : positive) (evict_ok : bool) : cache * opres :=
   match c_jobs c !! jid, stored_task c (Some jid) tid with
